@@ -1,5 +1,6 @@
 """C12 — DOCTYPE content is contained: no nested-entity expansion, no content-driven I/O."""
 import io
+import re
 import os
 import sys
 import tempfile
@@ -58,6 +59,7 @@ def gen_prolog(rng, secret_path=None):
     n = rng.randint(1, 6)
     ents, kinds = [], {}
     names = []
+    values = {}
     for i in range(n):
         name = "e%d" % i
         kind = rng.choice(["literal", "literal", "charref", "nested", "nested", "external", "public", "parameter", "single-quoted", "backslash", "gt-in-value", "empty", "charref-nested", "mixed-charref"])
@@ -103,15 +105,22 @@ def gen_prolog(rng, secret_path=None):
         ents.append(decl)
         kinds[name] = kind
         names.append(name)
+        if kind in ("literal", "backslash"):
+            m_ = re.search(r'"(.*)"', decl)
+            if m_:
+                values[name] = m_.group(1)
     layout = rng.choice(KW_LAYOUTS)
     sep = {"lines": "\n", "oneline": "", "indented": "\n   ", "crlf": "\r\n", "tabs": "\t", "peref": "%p0;", "comment-between": "<!-- c -->", "spaces": "  "}[layout]
     if layout == "peref":
         ents.insert(0, '<!ENTITY % p0 "">')
     subset = sep + sep.join(ents) + (sep if layout != "peref" else "")
     root = rng.choice(["rss", "feed"])
-    dt_kind = rng.choice(["internal", "internal", "internal", "system+internal", "none-internal", "public-netscape"])
+    dt_kind = rng.choice(["internal", "internal", "internal", "system+internal", "none-internal", "public-netscape", "system-refs+internal"])
     if dt_kind == "internal":
         doctype = "<!DOCTYPE %s [%s]>" % (root, subset)
+    elif dt_kind == "system-refs+internal":
+        # entity references parked inside the (never fetched, never parsed) system literal
+        doctype = "<!DOCTYPE %s SYSTEM '%s' [%s]>" % (root, "".join("&%s;" % nm for nm in names) * rng.randint(1, 4), subset)
     elif dt_kind == "system+internal":
         doctype = '<!DOCTYPE %s SYSTEM "http://127.0.0.1:9/x.dtd" [%s]>' % (root, subset)
     elif dt_kind == "public-netscape":
@@ -127,7 +136,7 @@ def gen_prolog(rng, secret_path=None):
     else:
         body = '<feed xmlns="http://www.w3.org/2005/Atom"><title>T%s</title><entry><summary>D%s</summary></entry></feed>' % (refs, refs)
     doc = joiner.join([x for x in (xmldecl, before, doctype, body) if x != ""] if joiner else [xmldecl, before, doctype, body])
-    return doc, {"kinds": kinds, "layout": layout, "doctype": dt_kind, "names": names, "before": before[:30]}
+    return doc, {"kinds": kinds, "layout": layout, "doctype": dt_kind, "names": names, "before": before[:30], "values": values}
 
 
 def real_replace(data):
@@ -250,6 +259,16 @@ def check_doc(docbytes, info, mode, secret=None, secret_path=None):
             fs.append(Finding(("expanded", "doctype-beyond-64k-prefix") if beyond else ("expanded", k, "loose" if loose else "strict"), w, "entity %s of kind %s (layout %s) was expanded: marker %s occurs %d times in the result" % (nm, k, info.get("layout"), mk, occ)))
         if k == "single-quoted" and occ and any(("&e0;" in t) is False and t.count("M0X") > 2 for t in texts):
             pass
+    # a plain-text entity, when it is expanded at all, expands to exactly its declared text (nothing may be spliced into it)
+    for i, nm in enumerate(names):
+        val = (info.get("values") or {}).get(nm)
+        if val is None:
+            continue
+        mk = "M%dX" % i
+        if any(mk in t for t in texts) and not any(("[%s]" % val) in t for t in texts):
+            fs.append(Finding(("mis-expanded", kinds.get(nm), "loose" if loose else "strict"), w,
+                              "plain-text entity %s = %r (layout %s, doctype %s) expands to something else than its declared text" % (nm, val, info.get("layout"), info.get("doctype")),
+                              observed=[t for t in texts if mk in t][:2], expected="[%s]" % val))
     if secret and any(secret in t for t in texts):
         fs.append(Finding(("expanded", "external-file"), w, "content of the local file named by a SYSTEM entity appears in the result"))
     # linear size bound: every expanded reference contributes at most the longest safe value
